@@ -537,6 +537,7 @@ static void prepare_parse_command(struct cat_object *self)
         self->index = 0;
         self->length = 0;
         self->cmd_type = CAT_CMD_TYPE_RUN;
+        self->implicit_write_flag = false;
 }
 
 static cat_status parse_prefix(struct cat_object *self)
@@ -845,7 +846,6 @@ static cat_status update_command(struct cat_object *self)
                         self->cmd_type = CAT_CMD_TYPE_WRITE;
                         prepare_search_command(self);
                         self->state = CAT_STATE_SEARCH_COMMAND;
-                        self->implicit_write_flag = false;
                 }
         }
 
@@ -1925,7 +1925,7 @@ static cat_status parse_command_args(struct cat_object *self)
                 break;
         default:
                 if ((self->length == 0) && (self->current_char == '?')) {
-                        if (((self->cmd->test != NULL) || ((self->cmd->var != NULL) && (self->cmd->var_num > 0))) && (self->cmd->implicit_write == false)) {
+                        if (((self->cmd->test != NULL) || ((self->cmd->var != NULL) && (self->cmd->var_num > 0))) && (self->implicit_write_flag == false)) {
                                 self->cmd_type = CAT_CMD_TYPE_TEST;
                                 self->state = CAT_STATE_WAIT_TEST_ACKNOWLEDGE;
                                 break;
